@@ -205,8 +205,11 @@ func kList(n, cap int, seed uint64) []int {
 }
 
 func sweepCap(c *core.Case) int {
-	if c.Mode == "thorough" {
+	switch c.Mode {
+	case "thorough":
 		return 300
+	case "race":
+		return 40
 	}
 	return 100
 }
